@@ -302,11 +302,26 @@ impl Zalsa {
     pub(crate) fn unwind_if_revision_cancelled(&self, zalsa_local: &ZalsaLocal) {
         self.event(&|| crate::Event::new(crate::EventKind::WillCheckCancellation));
         if zalsa_local.should_trigger_local_cancellation() {
+            #[cfg(salsa_rs_salsa_verif)]
+            crate::verif_conc::emit(crate::verif_conc::Ev::Check {
+                handle: zalsa_local.verif_handle(),
+                outcome: 1,
+            });
             zalsa_local.unwind_cancelled();
         }
         if self.runtime().load_cancellation_flag() {
+            #[cfg(salsa_rs_salsa_verif)]
+            crate::verif_conc::emit(crate::verif_conc::Ev::Check {
+                handle: zalsa_local.verif_handle(),
+                outcome: 2,
+            });
             zalsa_local.unwind_pending_write();
         }
+        #[cfg(salsa_rs_salsa_verif)]
+        crate::verif_conc::emit(crate::verif_conc::Ev::Check {
+            handle: zalsa_local.verif_handle(),
+            outcome: 0,
+        });
     }
 
     pub(crate) fn next_memo_ingredient_index(
